@@ -113,6 +113,8 @@ func c03Scenario(name string, signers []string, min uint64, fullGov bool) *Scena
 		Action{Name: "whitelist(O,+O)", Dt: time.Millisecond, Txs: tx1(model.Msg{Kind: model.EntWhitelist, From: "O", To: "O", N: 1})},
 	)
 	s.Actions = append(s.Actions, timeSteps(250, time.Second, 99*time.Second, 100*time.Second)...)
+	// the in-place software upgrade: the begin blockers of the upgrade block decide on the orders as in any other block
+	s.Actions = append(s.Actions, upgradeAct())
 	if !fullGov {
 		// the small genesis also carries the requests the chain must refuse
 		ms := time.Millisecond
